@@ -185,12 +185,28 @@ inductive DsKind | bottomUp | single | centroid | centered
 structure Cfg (R : Type) where
   kind : DsKind
   userOnly : Bool
-  maxH : Option Nat
+  maxH : Option Nat          -- the `max_hw` constructor argument
   maxW : Option Nat
+  cfgMaxH : Option Nat       -- `data_config.preprocessing.max_height / max_width`
+  cfgMaxW : Option Nat
   scale : R
   anchor : Option Nat
   cropH : Nat
   cropW : Nat
+
+/-- `BaseDataset.__init__`: a `max_height` / `max_width` set in the config takes precedence over
+the corresponding component of the `max_hw` argument -/
+def Cfg.effMaxH (cfg : Cfg R) : Option Nat :=
+  match cfg.cfgMaxH with | some c => some c | none => cfg.maxH
+def Cfg.effMaxW (cfg : Cfg R) : Option Nat :=
+  match cfg.cfgMaxW with | some c => some c | none => cfg.maxW
+
+/-- `self.max_instances`: the labels' maximum, except that `SingleInstanceDataset` sets it to 1
+(no NaN padding of `instances`) -/
+def Cfg.maxInst (cfg : Cfg R) (fs : List (Frame R)) : Nat :=
+  match cfg.kind with
+  | .single => 1
+  | _ => maxInstances fs
 
 /-- the point-tensor keys of a sample dict -/
 inductive Key | instances | centroids | instance | centroid | bbox
@@ -238,15 +254,18 @@ def Cfg.steps (cfg : Cfg R) (cast : Nat → R) : List (Step R) :=
   | .centered => centeredSteps cast cfg.cropH cfg.cropW
   | _ => []
 
+/-- the frame's `eff_scale` under this configuration -/
+def Cfg.eff (cfg : Cfg R) (cast : Nat → R) (f : Frame R) : R :=
+  effScale cast f.H f.W cfg.effMaxH cfg.effMaxW
+
 def applySteps (steps : List (Step R)) (d : DictV R) : DictV R :=
   steps.foldl (fun d s => assocSet s.1 (s.2 d) d) d
 
 /-- what `_fill_cache` must store for a frame (frame-based classes) -/
 def specFrameCached (cfg : Cfg R) (cast : Nat → R) (maxInst : Nat) (f : Frame R) : DictV R × SMeta :=
-  let (insts, k) := processInsts cfg.userOnly maxInst f
-  let eff := effScale cast f.H f.W cfg.maxH cfg.maxW
-  let insts' := insts.map (prepPts eff cfg.scale)
-  let m : SMeta := ⟨k, f.frameIdx, f.videoIdx, f.H, f.W⟩
+  let pi := processInsts cfg.userOnly maxInst f
+  let insts' := pi.1.map (prepPts (cfg.eff cast f) cfg.scale)
+  let m : SMeta := ⟨pi.2, f.frameIdx, f.videoIdx, f.H, f.W⟩
   match cfg.kind with
   | .centroid => ([(Key.instances, insts'.flatten), (Key.centroids, insts'.map (centroidOf cfg.anchor))], m)
   | _ => ([(Key.instances, insts'.flatten)], m)
@@ -255,27 +274,26 @@ def specFrameCached (cfg : Cfg R) (cast : Nat → R) (maxInst : Nat) (f : Frame 
 def specCenteredCached (cfg : Cfg R) (cast : Nat → R) (f : Frame R) (j : Nat) : DictV R × SMeta :=
   let fl := f.filtered cfg.userOnly
   let pts0 := ((fl.map (·.pts)).getD j [])
-  let eff := effScale cast f.H f.W cfg.maxH cfg.maxW
-  let pts := prepPts eff cfg.scale pts0
+  let pts := prepPts (cfg.eff cast f) cfg.scale pts0
   let c := centroidOf cfg.anchor pts
   let bb := centeredBbox cast c (cropExtra cfg.cropH) (cropExtra cfg.cropW)
   let tl := bb.getD 0 Pt.nan
   ([(Key.bbox, bb), (Key.instance, pts.map (·.sub tl)), (Key.centroid, [c.sub tl])],
    ⟨fl.length, f.frameIdx, f.videoIdx, f.H, f.W⟩)
 
+/-- placeholder for an index that does not exist (never reached: index lists only hold valid
+indices) -/
+def noEntry : DictV R × SMeta := ([], ⟨0, 0, 0, 0, 0⟩)
+
 /-- the cache `_fill_cache` must build -/
 def specCache (cfg : Cfg R) (cast : Nat → R) (fs : List (Frame R)) : List (DictV R × SMeta) :=
   match cfg.kind with
   | .centered =>
     (instanceIdxList cfg.userOnly fs).map fun ij =>
-      match fs[ij.1]? with
-      | some f => specCenteredCached cfg cast f ij.2
-      | none => ([], ⟨0, 0, 0, 0, 0⟩)
+      ((fs[ij.1]?).map fun f => specCenteredCached cfg cast f ij.2).getD noEntry
   | _ =>
     (lfIdxList cfg.userOnly fs).map fun i =>
-      match fs[i]? with
-      | some f => specFrameCached cfg cast (maxInstances fs) f
-      | none => ([], ⟨0, 0, 0, 0, 0⟩)
+      ((fs[i]?).map fun f => specFrameCached cfg cast (cfg.maxInst fs) f).getD noEntry
 
 /-- **Sample specification**: what `ds[i]` must return (point tensors + metadata) — a function
 of the labels and the index only. -/
@@ -368,65 +386,70 @@ def genCentroids (v : Variant) (h : Heap R) (t : TRef) (nInst nNodes : Nat) (anc
 /-- `instances * eff_scale` (always a new tensor) then `apply_resizer` (returns its argument
 itself when `scale == 1.0`) -/
 def prepT (h : Heap R) (t : TRef) (eff scale : R) : Heap R × TRef :=
-  let (h1, t1) := h.allocT ((h.readT t).map (Pt.scale eff))
-  if scale = 1 then (h1, t1) else h1.allocT ((h1.readT t1).map (Pt.scale scale))
+  let a := h.allocT ((h.readT t).map (Pt.scale eff))
+  if scale = 1 then a else a.1.allocT ((a.1.readT a.2).map (Pt.scale scale))
+
+/-- `len(first row)` -/
+def headLen {α} (rows : List (List α)) : Nat := (rows.head?.map List.length).getD 0
 
 /-- one iteration of `_fill_cache` of the frame-based classes; returns the cached dict's id -/
 def fillFrame (v : Variant) (cfg : Cfg R) (cast : Nat → R) (maxInst : Nat) (h : Heap R) (f : Frame R) :
     Heap R × (Nat × SMeta) :=
-  let (insts, k) := processInsts cfg.userOnly maxInst f
-  let nNodes := (insts.head?.map List.length).getD 0
-  let (h0, t0) := h.allocT insts.flatten                       -- from_numpy / cat: fresh
-  let (h1, t1) := prepT h0 t0 (effScale cast f.H f.W cfg.maxH cfg.maxW) cfg.scale
-  let m : SMeta := ⟨k, f.frameIdx, f.videoIdx, f.H, f.W⟩
+  let pi := processInsts cfg.userOnly maxInst f
+  let a0 := h.allocT pi.1.flatten                              -- from_numpy / cat: fresh
+  let a1 := prepT a0.1 a0.2 (cfg.eff cast f) cfg.scale
+  let m : SMeta := ⟨pi.2, f.frameIdx, f.videoIdx, f.H, f.W⟩
   match cfg.kind with
   | .centroid =>
-    let (h2, c) := genCentroids v h1 t1 insts.length nNodes cfg.anchor
-    let (h3, ex) := h2.allocD [(Key.instances, t1), (Key.centroids, c)]
-    let (h4, d) := h3.allocD (h3.dicts.getD ex [])            -- `sample.copy()`
-    (h4, (d, m))
+    let a2 := genCentroids v a1.1 a1.2 pi.1.length (headLen pi.1) cfg.anchor
+    let a3 := a2.1.allocD [(Key.instances, a1.2), (Key.centroids, a2.2)]
+    let a4 := a3.1.allocD (a3.1.dicts.getD a3.2 [])           -- `sample.copy()`
+    (a4.1, (a4.2, m))
   | _ =>
-    let (h3, ex) := h1.allocD [(Key.instances, t1)]
-    let (h4, d) := h3.allocD (h3.dicts.getD ex [])
-    (h4, (d, m))
+    let a3 := a1.1.allocD [(Key.instances, a1.2)]
+    let a4 := a3.1.allocD (a3.1.dicts.getD a3.2 [])
+    (a4.1, (a4.2, m))
 
 /-- one iteration of `CenteredInstanceDataset._fill_cache` -/
 def fillCentered (v : Variant) (cfg : Cfg R) (cast : Nat → R) (h : Heap R) (f : Frame R) (j : Nat) :
     Heap R × (Nat × SMeta) :=
   let fl := f.filtered cfg.userOnly
   let nNodes := ((fl.map (fun i => i.pts.length)).getD j 0)
-  let (h0, t0) := h.allocT (fl.map (·.pts)).flatten            -- np.stack of every instance
-  let tj := t0.slice ((List.range nNodes).map fun k => j * nNodes + k)   -- instances[:, inst_idx]
-  let (h1, t1) := prepT h0 tj (effScale cast f.H f.W cfg.maxH cfg.maxW) cfg.scale
-  let (h2, c) := genCentroids v h1 t1 1 nNodes cfg.anchor
+  let a0 := h.allocT (fl.map (·.pts)).flatten                  -- np.stack of every instance
+  let tj := a0.2.slice ((List.range nNodes).map fun k => j * nNodes + k)   -- instances[:, inst_idx]
+  let a1 := prepT a0.1 tj (cfg.eff cast f) cfg.scale
+  let a2 := genCentroids v a1.1 a1.2 1 nNodes cfg.anchor
   -- generate_crops(image, instances[0], centroids[0], crop_size)
-  let bb := centeredBbox cast ((h2.readT c).getD 0 Pt.nan) (cropExtra cfg.cropH) (cropExtra cfg.cropW)
-  let (h3, tb) := h2.allocT bb
+  let bb := centeredBbox cast ((a2.1.readT a2.2).getD 0 Pt.nan) (cropExtra cfg.cropH) (cropExtra cfg.cropW)
+  let a3 := a2.1.allocT bb
   let tl := bb.getD 0 Pt.nan
-  let (h4, ti) := h3.allocT ((h3.readT t1).map (·.sub tl))
-  let (h5, tc) := h4.allocT ((h4.readT c).map (·.sub tl))
-  let (h6, ex) := h5.allocD [(Key.bbox, tb), (Key.instance, ti), (Key.centroid, tc)]
-  let (h7, d) := h6.allocD (h6.dicts.getD ex [])
-  (h7, (d, ⟨fl.length, f.frameIdx, f.videoIdx, f.H, f.W⟩))
+  let a4 := a3.1.allocT ((a3.1.readT a1.2).map (·.sub tl))
+  let a5 := a4.1.allocT ((a4.1.readT a2.2).map (·.sub tl))
+  let a6 := a5.1.allocD [(Key.bbox, a3.2), (Key.instance, a4.2), (Key.centroid, a5.2)]
+  let a7 := a6.1.allocD (a6.1.dicts.getD a6.2 [])
+  (a7.1, (a7.2, ⟨fl.length, f.frameIdx, f.videoIdx, f.H, f.W⟩))
 
 /-- dataset state: heap + `self.cache` (index ↦ dict id, metadata) -/
 structure DS (R : Type) where
   heap : Heap R
   cache : List (Nat × SMeta)
 
+/-- the `_fill_cache` loop: one cache entry per item (an item whose frame does not exist is
+skipped — never happens, index lists only hold valid indices) -/
+def buildFold {ι} (xs : List ι) (step : Heap R → ι → Option (Heap R × (Nat × SMeta))) (ds : DS R) : DS R :=
+  xs.foldl (fun ds x => match step ds.heap x with
+    | some r => ⟨r.1, ds.cache ++ [r.2]⟩
+    | none => ds) ds
+
 /-- `__init__` + `_fill_cache` -/
 def build (v : Variant) (cfg : Cfg R) (cast : Nat → R) (fs : List (Frame R)) : DS R :=
   match cfg.kind with
   | .centered =>
-    (instanceIdxList cfg.userOnly fs).foldl (fun ds ij =>
-      match fs[ij.1]? with
-      | some f => let r := fillCentered v cfg cast ds.heap f ij.2; ⟨r.1, ds.cache ++ [r.2]⟩
-      | none => ds) ⟨Heap.empty, []⟩
+    buildFold (instanceIdxList cfg.userOnly fs)
+      (fun h ij => (fs[ij.1]?).map fun f => fillCentered v cfg cast h f ij.2) ⟨Heap.empty, []⟩
   | _ =>
-    (lfIdxList cfg.userOnly fs).foldl (fun ds i =>
-      match fs[i]? with
-      | some f => let r := fillFrame v cfg cast (maxInstances fs) ds.heap f; ⟨r.1, ds.cache ++ [r.2]⟩
-      | none => ds) ⟨Heap.empty, []⟩
+    buildFold (lfIdxList cfg.userOnly fs)
+      (fun h i => (fs[i]?).map fun f => fillFrame v cfg cast (cfg.maxInst fs) h f) ⟨Heap.empty, []⟩
 
 /-- one rebinding: evaluate `f` on the current values of the (copied) dict, allocate, bind -/
 def stepH (h : Heap R) (d : Nat) (s : Step R) : Heap R :=
